@@ -258,7 +258,7 @@ fn coordinate_order_descriptor(desc: &str) -> Option<CoordinateOrderDescriptor> 
     for i in 0..4 {
         let d = indices[i];
         post[i] = (d.abs() - 1) as usize;
-        mult[i] = d.signum() as f64 * if i > 1 { 1.0 } else { torad };
+        mult[i] = d.signum() as f64 * if post[i] > 1 { 1.0 } else { torad };
     }
     let noop = mult == [1.0; 4] && post == [0_usize, 1, 2, 3];
 
